@@ -1078,6 +1078,8 @@ type responseWriter struct {
 	bodyWritten int
 	// receives header changes the handler makes after the end was written
 	detachedHeader http.Header
+	// the RPC status keys of the real header map as they were when the end was written
+	endStatus http.Header
 }
 
 func (w *responseWriter) Header() http.Header {
@@ -1339,6 +1341,7 @@ func (w *responseWriter) close() {
 		w.reportError(fmt.Errorf("handler wrote %d bytes but declared content-length %d", w.bodyWritten, w.contentLen))
 	}
 	if w.endWritten {
+		w.reassertEnd()
 		return // all done
 	}
 	if w.respMeta.end != nil {
@@ -1358,8 +1361,41 @@ func (w *responseWriter) close() {
 
 func (w *responseWriter) writeEnd(end *responseEnd, wasInHeaders bool) {
 	trailers := w.op.client.protocol.encodeEnd(w.op, end, w.delegate, wasInHeaders)
-	httpMergeTrailers(w.Header(), trailers)
+	headers := w.Header()
+	for _, key := range rpcStatusKeys {
+		// whatever status the handler may have left behind as a trailer is superseded
+		headers.Del(http.TrailerPrefix + key)
+	}
+	httpMergeTrailers(headers, trailers)
+	// Remember the status as sent, so that it can be re-asserted when the handler returns:
+	// the handler shares this header map and may still write its own status into it.
+	w.endStatus = make(http.Header, 2*len(rpcStatusKeys))
+	for _, key := range rpcStatusKeys {
+		for _, k := range [...]string{key, http.TrailerPrefix + key} {
+			if vals, ok := headers[k]; ok {
+				w.endStatus[k] = vals
+			}
+		}
+	}
 	w.endWritten = true
+}
+
+// rpcStatusKeys are the keys that carry the disposition of an RPC in headers or trailers.
+var rpcStatusKeys = [...]string{"Grpc-Status", "Grpc-Message", "Grpc-Status-Details-Bin"} //nolint:gochecknoglobals
+
+// reassertEnd makes sure the status keys in the real header map (from which trailers
+// are taken when the handler returns) still say what was sent with the end of the RPC.
+func (w *responseWriter) reassertEnd() {
+	headers := w.delegate.Header()
+	for _, key := range rpcStatusKeys {
+		for _, k := range [...]string{key, http.TrailerPrefix + key} {
+			if vals, ok := w.endStatus[k]; ok {
+				headers[k] = vals
+			} else {
+				delete(headers, k)
+			}
+		}
+	}
 }
 
 // envelopingWriter will translate between envelope styles as data is
